@@ -136,10 +136,14 @@ func genCLIChain(r *Runner, rng *Rng, seq int) (Case, bool) {
 	owner := pool()[[]int{4, 2, 5}[rng.Intn(3)]]
 	ownerPriv, ownerPub := writeKeyFiles(keysDir, owner, "owner")
 	useDSSE := rng.Chance(35)
+	useStrip := rng.Chance(35)
 	nsteps := 1 + rng.Intn(3)
 	feat := []string{fmt.Sprintf("n%d", nsteps)}
 	if useDSSE {
 		feat = append(feat, "dsse")
+	}
+	if useStrip {
+		feat = append(feat, "lstrip")
 	}
 	// initial project files
 	for n, c := range genFiles(rng, 1+rng.Intn(2)) {
@@ -231,9 +235,17 @@ func genCLIChain(r *Runner, rng *Rng, seq int) (Case, bool) {
 		}
 		feat = append(feat, mode)
 		excl := []string{"-e", "*.link", "-e", ".*"}
+		// strip prefixes: the working directory is named by its ABSOLUTE path and stripped again, so
+		// that the recorded names are the relative ones; further prefixes follow that match what
+		// remains — only the FIRST matching prefix may be removed (seeded change c20-lstrip-all-prefixes-cli)
+		mp := "."
+		if useStrip {
+			mp = work
+			excl = append(excl, "-l", work+"/", "-l", "src/", "-l", "data/", "-l", "out")
+		}
 		if mode == "run" {
 			args := append([]string{"run"}, common...)
-			args = append(args, "-m", ".", "-p", ".")
+			args = append(args, "-m", mp, "-p", mp)
 			args = append(args, excl...)
 			args = append(args, "--", "sh", "-c", script)
 			if c, o := runCLI(work, args...); c != 0 {
@@ -242,7 +254,7 @@ func genCLIChain(r *Runner, rng *Rng, seq int) (Case, bool) {
 			}
 		} else {
 			a1 := append([]string{"record", "start"}, common...)
-			a1 = append(a1, "-m", ".")
+			a1 = append(a1, "-m", mp)
 			a1 = append(a1, excl...)
 			if c, o := runCLI(work, a1...); c != 0 {
 				fmt.Fprintln(os.Stderr, "cli record start failed:", o)
@@ -250,7 +262,7 @@ func genCLIChain(r *Runner, rng *Rng, seq int) (Case, bool) {
 			}
 			exec.Command("sh", "-c", "cd "+shq(work)+" && "+script).Run()
 			a2 := append([]string{"record", "stop"}, common...)
-			a2 = append(a2, "-p", ".")
+			a2 = append(a2, "-p", mp)
 			a2 = append(a2, excl...)
 			if c, o := runCLI(work, a2...); c != 0 {
 				fmt.Fprintln(os.Stderr, "cli record stop failed:", o)
@@ -598,7 +610,7 @@ func runC20(r *Runner, tier string, rng *Rng) {
 		batch = append(batch, Case{Op: "climatch", Args: map[string]any{"files": files, "products": products, "local": local}, Feat: fmt.Sprintf("clmp:%d:%d", len(files), len(products))})
 	}
 	flush()
-	r.St.Rule = "supply chains of 1-3 steps carried out by invoking the built binary: `run` or `record start`/`record stop` per step (with and without --use-dsse and a metadata directory; a third of the Metablock steps are authorized by a certificate constraint and run with --key and --cert, with root / layout-intermediate / caller-intermediate chains), `key id` (compared with the independently computed id), `sign` and `sign --verify` (owner key and a foreign key), then one tampering out of {none, product, link, layout, wrong layout key, dropped link, renamed link, extra file}; all files are captured and `in-toto verify` (exit status) is compared with in-process library verification and with the model's verdict for the same files, and untampered histories must be ACCEPTED; `match-products` output and exit status vs the model. Class = (steps, modes, wrapper, tampering, verdict)."
+	r.St.Rule = "supply chains of 1-3 steps carried out by invoking the built binary: `run` or `record start`/`record stop` per step (with and without --use-dsse and a metadata directory, in a third of the chains with the working directory named by its absolute path plus several --lstrip-paths prefixes; a third of the Metablock steps are authorized by a certificate constraint and run with --key and --cert, with root / layout-intermediate / caller-intermediate chains), `key id` (compared with the independently computed id), `sign` and `sign --verify` (owner key and a foreign key), then one tampering out of {none, product, link, layout, wrong layout key, dropped link, renamed link, extra file}; all files are captured and `in-toto verify` (exit status) is compared with in-process library verification and with the model's verdict for the same files, and untampered histories must be ACCEPTED; `match-products` output and exit status vs the model. Class = (steps, modes, wrapper, tampering, verdict)."
 }
 
 var _ = ed25519.Sign
